@@ -226,6 +226,21 @@ def opPinterp : P String := do
   let (c, _, p) ← pPathArgs
   pure (showPath c.dt (p.interpolate (ControlSys.step c.kind c.dt)))
 
+/-- `stepcount h k`: `durToSteps (durOfSteps k h) h` as coded (`floor(0.5 + d/h)`), seen through `interpolate` on a two-state
+path (control count = max 1 steps) and `check`; `trunc` = the truncating conversion `(int)(d/h)` for comparison -/
+def opStepCount : P String := do
+  let h ← pF
+  let k ← pN
+  atEnd
+  guardP (h > 1e-9 && h < 1e6 && k ≤ 100000)
+  let d : F := durOfSteps k h
+  let n := (durToSteps d h).toNat
+  let p : Path (Array F) (Array F) := { states := [#[1.0, 1.0], #[1.0, 1.0]], controls := [#[0.0, 0.0]], steps := [n] }
+  let step := ControlSys.step .point h
+  let q := p.interpolate step
+  let ok := p.check step (fun _ => true) (closeF .point)
+  pure s!"steps={q.controls.length} check={if ok then 1 else 0} d={floatBits d} trunc={Num.toInt (d / h)}"
+
 def opPgeom : P String := do
   let (c, _, p) ← pPathArgs
   let gs := p.asGeometric (ControlSys.step c.kind c.dt)
@@ -380,9 +395,24 @@ def opSstPlay : P String := do
   let thr ← pF
   let sel ← pKVF "sel"
   let prune ← pKVF "prune"
-  guardP (sel ≥ 0 && prune ≥ 0)
+  let bias ← pKVF "bias"
+  let lseed ← pKVNat "lseed"
+  guardP (sel ≥ 0 && prune ≥ 0 && lseed < 4294967296)
   expect "draws"
-  let draws ← pSstDraws #[] c.kind.nreals
+  let draws0 ← pSstDraws #[] c.kind.nreals
+  -- the planner's own RNG, recomputed: `goal_s && rng_.uniform01() < goalBias_ && canSample()` then
+  -- `rng_.uniformInt(minSteps, maxSteps)`; the harness's recorded G / K events must agree (else `desync`)
+  let chk := draws0.foldl (fun (acc : Rng.Rng × Array (CSST.Draw (Array F) (Array F)) × Option Nat) d =>
+    let (r0, out, bad) := acc
+    let gb : Bool × Rng.Rng :=
+      if gk == .pos then let x := r0.uniform01; (x.1 < bias, x.2) else (false, r0)
+    let kk := gb.2.uniformInt (Int.ofNat c.minSteps) (Int.ofNat c.maxSteps)
+    let k := kk.1.toNat
+    let bad' := if bad.isNone && (gb.1 != d.useGoal || k != d.steps) then some out.size else bad
+    (kk.2, out.push { d with useGoal := gb.1, steps := k }, bad')) (Rng.Rng.create lseed.toUInt64, #[], none)
+  let draws := chk.2.1
+  if let some i := chk.2.2 then
+    return s!"desync: recorded goal-bias / step-count event {i} differs from the RNG model"
   let valid := ControlSys.valid c eps boxes
   let step := ControlSys.step c.kind c.dt
   let P : CSST.Problem (Array F) (Array F) F :=
@@ -603,6 +633,7 @@ def step (_ : Unit) (ts : List String) : Unit × String :=
   | "pcheck" :: rest => ((), runP opPcheck rest)
   | "pinterp" :: rest => ((), runP opPinterp rest)
   | "pgeom" :: rest => ((), runP opPgeom rest)
+  | "stepcount" :: rest => ((), runP opStepCount rest)
   | "replayok" :: rest => ((), runP opReplayOk rest)
   | "rrtplay" :: rest => ((), runP opRrtPlay rest)
   | "sstplay" :: rest => ((), runP opSstPlay rest)
